@@ -502,18 +502,9 @@ impl<'a> Parser<'a> {
     }
 
     fn parse_op(&mut self, exec_prec: i64, mut lhs: ExprAST<'a>) -> Result<ExprAST<'a>> {
-        let mut is_not = false;
         loop {
             if !self.tokenizer.cur_token.is_op_token() {
                 return Ok(lhs);
-            }
-            if self.tokenizer.cur_token.is_not_token() {
-                is_not = true;
-                self.next()?;
-                if !self.cur_tok().is_binop_token() {
-                    return Err(Error::ExpectBinOpToken);
-                }
-                continue;
             }
             if self.tokenizer.cur_token.is_question_mark() {
                 // the conditional binds looser than every infix operator: an operand
@@ -527,9 +518,18 @@ impl<'a> Parser<'a> {
                 let b = self.parse_expression()?;
                 return Ok(ExprAST::Ternary(Box::new(lhs), Box::new(a), Box::new(b)));
             }
-            let (l_bp, r_bp) = self.get_token_precidence();
+            // `x not OP y` is not(x OP y) with OP's own binding powers: look through
+            // the `not` and consume it only once OP is accepted at this level
+            let is_not = self.tokenizer.cur_token.is_not_token();
+            let (is_binop, (l_bp, r_bp)) = self.peek_infix(is_not)?;
+            if is_not && !is_binop {
+                return Err(Error::ExpectBinOpToken);
+            }
             if l_bp < exec_prec {
                 return Ok(lhs);
+            }
+            if is_not {
+                self.next()?;
             }
             let op: &str = match self.tokenizer.cur_token {
                 Token::Operator(op, _) => op,
@@ -538,22 +538,33 @@ impl<'a> Parser<'a> {
             self.next()?;
             let mut rhs = self.parse_primary()?;
 
-            let (cur_l_bp, _) = self.get_token_precidence();
-            if self.tokenizer.cur_token.is_binop_token() && r_bp < cur_l_bp {
+            let next_is_not = self.tokenizer.cur_token.is_not_token();
+            let (next_is_binop, (cur_l_bp, _)) = self.peek_infix(next_is_not)?;
+            if next_is_binop && r_bp < cur_l_bp {
                 rhs = self.parse_op(r_bp, rhs)?;
             }
             lhs = ExprAST::Binary(op, Box::new(lhs), Box::new(rhs));
             if is_not {
                 lhs = ExprAST::Unary("not", Box::new(lhs));
-                is_not = false;
             }
         }
     }
 
-    fn get_token_precidence(&self) -> (i64, i64) {
-        match &self.cur_tok() {
-            Token::Operator(op, _) => InfixOpManager::new().get_precidence(op),
-            _ => (-1, -1),
+    // whether the operator at the head of the input (the current token, or the one
+    // after it when the current token is a `not` to look through) is an infix
+    // operator, and its binding powers
+    fn peek_infix(&self, skip_not: bool) -> Result<(bool, (i64, i64))> {
+        let token = if skip_not {
+            self.tokenizer.peek()?
+        } else {
+            self.cur_tok()
+        };
+        match token {
+            Token::Operator(op, _) => Ok((
+                InfixOpManager::new().exist(op),
+                InfixOpManager::new().get_precidence(op),
+            )),
+            _ => Ok((false, (-1, -1))),
         }
     }
 
